@@ -352,12 +352,21 @@ static void ts_lexer__mark_end(TSLexer *_self) {
       self->current_included_range_index > 0 &&
       self->current_position.bytes == current_included_range->start_byte
     ) {
+      // ...that is, of the nearest preceding range that contains any text.
       TSRange *previous_included_range = current_included_range - 1;
-      self->token_end_position = (Length) {
-        previous_included_range->end_byte,
-        previous_included_range->end_point,
-      };
-      return;
+      while (
+        previous_included_range > self->included_ranges &&
+        previous_included_range->end_byte == previous_included_range->start_byte
+      ) {
+        previous_included_range--;
+      }
+      if (previous_included_range->end_byte > previous_included_range->start_byte) {
+        self->token_end_position = (Length) {
+          previous_included_range->end_byte,
+          previous_included_range->end_point,
+        };
+        return;
+      }
     }
   }
   self->token_end_position = self->current_position;
